@@ -496,6 +496,16 @@ class Exec:
             elif mods.get(hn) != 'whole':
                 mods.setdefault(hn, set()).add(ref)
 
+        def add_map(mts):
+            # an update of a map in the body: the key set and the values of every map of that type may change
+            xtd = self.prog.under(mts)
+            ks, vs = vc.sort_of(xtd['key']), vc.sort_of(xtd['elem'])
+            hn = 'M.%s.%s' % (san(ks), san(vs))
+            vc.heap_sorts[hn + '.has'] = 'Arr:Map:%s>Bool' % ks
+            vc.heap_sorts[hn + '.val'] = 'Arr:Map:%s>%s' % (ks, vs)
+            add(hn + '.has', None)
+            add(hn + '.val', None)
+
         def scan_func(func, body_blocks, argmap, depth, loop_):
             """argmap: callee param name -> (V, is_outside) ; None for top level"""
             for bi in body_blocks:
@@ -513,8 +523,7 @@ class Exec:
                         if r == 'all':
                             return 'all'
                     elif op == 'MapUpdate':
-                        add('M.map', None)
-                        vc.heap_sorts.setdefault('M.map', 'Arr:Int')
+                        add_map(ins['map']['t'])
                     elif op == 'Go':
                         return 'all'
             return None
@@ -553,7 +562,7 @@ class Exec:
                     hn, _ = vc.elem_heap(vc.sort_of(ets))
                     add(hn, None)
                 elif bn == 'delete':
-                    add('M.map', None)
+                    add_map(call['args'][0]['t'])
                 return None
             if how == 'model':
                 m = models.MODELS[callee]
